@@ -27,6 +27,10 @@ from typing import Any, Callable, Dict, Iterable, List, Optional, Tuple
 
 from . import common
 
+import warnings
+
+warnings.filterwarnings("ignore", message=".*multi-threaded, use of fork.*", category=DeprecationWarning)
+
 _CTX = mp.get_context("fork")
 SCRATCH_PREFIX = "ariadne-verif-"
 
